@@ -577,6 +577,32 @@ impl<'g, T> CallDriver<'g, T> {
 thread_local! {
     /// Polls issued after a stream returned `None` (evidence counter, read and reset by the runner).
     pub static POST_END_POLLS: std::cell::Cell<u64> = const { std::cell::Cell::new(0) };
+    /// FnRef clones made (only non-zero on a tree where FnRef is Clone).
+    pub static FNREF_CLONES: std::cell::Cell<u64> = const { std::cell::Cell::new(0) };
+}
+
+/// "Exercise a capability if the type has it" (autoref specialisation, decided at compile time):
+/// `FnRef` is a guard whose drop reports the function as finished. Should it ever become `Clone`,
+/// a function must stay in flight until ALL its handles are gone; the stream driver clones every
+/// third FnRef it receives and drops the clone at once while it keeps the original - with a
+/// naive `Clone` the successor is released while the original is still held, which the ordering /
+/// conflict oracles see. On a tree where `FnRef` is not `Clone` this compiles to nothing.
+pub struct CloneProbe<'a, T>(pub &'a T);
+pub trait CloneYes<T> {
+    fn maybe_clone(&self) -> Option<T>;
+}
+pub trait CloneNo<T> {
+    fn maybe_clone(&self) -> Option<T>;
+}
+impl<T: Clone> CloneYes<T> for CloneProbe<'_, T> {
+    fn maybe_clone(&self) -> Option<T> {
+        Some(self.0.clone())
+    }
+}
+impl<T> CloneNo<T> for &CloneProbe<'_, T> {
+    fn maybe_clone(&self) -> Option<T> {
+        None
+    }
 }
 
 /// What a stream hands out, unified over the plain and the interruptible streams.
@@ -609,6 +635,7 @@ pub struct StreamDriver<'g> {
     pub idle_points: usize,
     /// Polls issued after the stream returned `None`.
     pub post_end_polls: usize,
+    yields_seen: usize,
 }
 
 impl<'g> StreamDriver<'g> {
@@ -645,6 +672,7 @@ impl<'g> StreamDriver<'g> {
             polls: 0,
             idle_points: 0,
             post_end_polls: 0,
+            yields_seen: 0,
         }
     }
 
@@ -679,11 +707,13 @@ impl<'g> StreamDriver<'g> {
                     SItem::Plain(r) => {
                         let f = r.idx as u32;
                         self.sh.borrow_mut().log.push(Ev::Yield(f));
+                        self.clone_and_drop(&r);
                         self.held.push((f, r));
                     }
                     SItem::IntrSome(r) => {
                         let f = r.idx as u32;
                         self.sh.borrow_mut().log.push(Ev::YieldIntr(f));
+                        self.clone_and_drop(&r);
                         self.held.push((f, r));
                     }
                     SItem::IntrNone => {
@@ -704,6 +734,21 @@ impl<'g> StreamDriver<'g> {
                     self.idle_points += 1;
                 }
             }
+        }
+    }
+
+    /// See `CloneProbe`.
+    fn clone_and_drop(&mut self, r: &FnRef<'g, TFn>) {
+        self.yields_seen += 1;
+        if self.yields_seen % 3 != 1 {
+            return;
+        }
+        #[allow(unused_imports)]
+        use self::{CloneNo as _, CloneYes as _};
+        let c: Option<FnRef<'g, TFn>> = (&CloneProbe(r)).maybe_clone();
+        if let Some(c) = c {
+            FNREF_CLONES.with(|k| k.set(k.get() + 1));
+            let _ = catch_unwind(AssertUnwindSafe(move || drop(c)));
         }
     }
 
